@@ -616,7 +616,102 @@ func c08(r *core.Run) {
 			return isAliveAddr(c.Common().Args[0]) && (!ok || k == val || val < 0)
 		}
 	}
-	r.Check("D4/K2/rescue-iff-redis-down", "reserveN: when atomic redisAlive == 0 the script is not evaluated and the answer is rescueLimiter.AllowN(now, n); after EvalCtx, false is answered only under err == redis.Nil or errors.Is(err, DeadlineExceeded/Canceled); every other failure (err != nil, or a reply that is not int64) first calls startMonitor and then answers rescueLimiter.AllowN(now, n); the script's verdict code == 1 is used only when err == nil", func(o *core.O) {
+	r.Check("D3/K9/allow-wrappers-forward", "every public entry point of the token limiter hands its own arguments down to the function that evaluates the script: a wrapper that has a count / context / time parameter passes that very parameter in the position of the same type, and supplies the constant 1, context.Background() or time.Now() only for what it does not have (AllowNCtx(ctx, now, n) asks for n tokens, not for one)", func(o *core.O) {
+		if !o.Need(reserve != nil, "TokenLimiter.reserveN") {
+			return
+		}
+		recvT := reserve.Signature.Recv()
+		if !o.Need(recvT != nil, "receiver of reserveN") {
+			return
+		}
+		// the delegation chain: methods of the same receiver that call reserveN or another such method
+		chain := map[*ssa.Function]bool{reserve: true}
+		var wrappers []*ssa.Function
+		for changed := true; changed; {
+			changed = false
+			for _, f := range p.PkgFuncs(c08pkg) {
+				if chain[f] || f.Parent() != nil || f.Signature.Recv() == nil || !types.Identical(f.Signature.Recv().Type(), recvT.Type()) {
+					continue
+				}
+				for _, c := range core.Calls(f, func(in ssa.Instruction) bool {
+					c := core.AsCall(in)
+					return c != nil && c.Common().StaticCallee() != nil && chain[c.Common().StaticCallee()]
+				}) {
+					_ = c
+					chain[f] = true
+					wrappers = append(wrappers, f)
+					changed = true
+					break
+				}
+			}
+		}
+		if !o.Need(len(wrappers) > 0, "public wrappers delegating to reserveN") {
+			return
+		}
+		kind := func(t types.Type) string {
+			switch t.String() {
+			case "int":
+				return "count"
+			case "context.Context":
+				return "context"
+			case "time.Time":
+				return "time"
+			}
+			return ""
+		}
+		n := 0
+		for _, f := range wrappers {
+			r.Fn(core.FuncName(f))
+			own := map[string]*ssa.Parameter{}
+			for _, pa := range f.Params[1:] {
+				if k := kind(pa.Type()); k != "" {
+					own[k] = pa
+				}
+			}
+			for _, c := range core.Calls(f, func(in ssa.Instruction) bool {
+				c := core.AsCall(in)
+				return c != nil && c.Common().StaticCallee() != nil && chain[c.Common().StaticCallee()] && c.Common().StaticCallee() != f
+			}) {
+				g := c.Common().StaticCallee()
+				args := c.Common().Args
+				for j, a := range args {
+					if j == 0 || j >= len(g.Params) {
+						continue
+					}
+					k := kind(g.Params[j].Type())
+					if k == "" {
+						continue
+					}
+					n++
+					av := core.Forward(a)
+					if pa := own[k]; pa != nil {
+						if av != ssa.Value(pa) {
+							o.Fail(p.InstrPos(c), "%s has its own %s parameter %s but hands %s to %s: the caller's %s is ignored", core.FuncName(f), k, pa.Name(), core.Describe(av), core.FuncName(g), k)
+						}
+						continue
+					}
+					okDefault := false
+					switch k {
+					case "count":
+						v, isC := core.ConstInt(av)
+						okDefault = isC && v == 1
+					case "context":
+						cc, isCall := av.(*ssa.Call)
+						okDefault = isCall && core.CalleeName(cc) == "context.Background"
+					case "time":
+						cc, isCall := av.(*ssa.Call)
+						okDefault = isCall && core.CalleeName(cc) == "time.Now"
+					}
+					if !okDefault {
+						o.Fail(p.InstrPos(c), "%s supplies %s as the %s of %s (expected 1 / context.Background() / time.Now() for an argument the wrapper does not have)", core.FuncName(f), core.Describe(av), k, core.FuncName(g))
+					}
+				}
+			}
+		}
+		o.Site(n, "arguments handed down by the token limiter's wrappers")
+	})
+
+	r.Check("D4/K2/rescue-iff-redis-down", "reserveN: when atomic redisAlive == 0 the script is not evaluated and the answer is rescueLimiter.AllowN(now, n); after EvalCtx, false is answered only under err == redis.Nil or errors.Is(err, DeadlineExceeded/Canceled), and the fallback is reachable only where both errors.Is tests failed; every other failure (err != nil, or a reply that is not int64) first calls startMonitor and then answers rescueLimiter.AllowN(now, n); the script's verdict code == 1 is used only when err == nil", func(o *core.O) {
 		if !o.Need(reserve != nil, "TokenLimiter.reserveN") || !o.Need(lim.has("redisAlive", "rescueLimiter"), "the limiter's redisAlive / rescueLimiter fields") {
 			return
 		}
@@ -695,6 +790,18 @@ func c08(r *core.Run) {
 		o.Site(len(hErr))
 		if len(hErr) == 0 {
 			o.Fail(p.InstrPos(ev), "reserveN never tests err != nil after the evaluation")
+		}
+		// conversely: a context error is the caller's problem, not an outage - the monitor is started
+		// (and the in-process limiter answers) only where errors.Is(err, X) was found false for both
+		for _, name := range []string{"DeadlineExceeded", "Canceled"} {
+			a := errIs(name)
+			if core.EdgeCount(f, a) == 0 {
+				o.Fail(p.InstrPos(ev), "reserveN never tests errors.Is(err, context.%s): an expired or cancelled caller context is taken for a Redis outage and switches every caller to the in-process limiter", name)
+				continue
+			}
+			if wv, found := core.Reach(core.Q{From: []core.At{core.After(ev)}, Target: core.Or(isStart, retOf(isRescue)), Cut: core.CutSet(func() []core.Edge { _, fl := core.EdgesOf(f, a); return fl }())}); found {
+				o.Fail(p.InstrPos(wv), "the fallback (startMonitor / rescueLimiter) is reachable after the evaluation without errors.Is(err, context.%s) having been found false: a caller's own context error is taken for a Redis outage, redisAlive drops to 0 and a full in-process bucket answers while Redis is healthy", name)
+			}
 		}
 		// verdict only under err == nil and a successful assertion
 		isCode := func(v ssa.Value) bool {
